@@ -113,7 +113,7 @@ func run(c combo, deadline time.Duration) (maxSeen int, reached bool, protoSeen 
 func TestC03(t *testing.T) {
 	R := ev.New("C03")
 	R.Rule = "transport companion: protocol {http, https (HTTP/1.1), h2} x server stream limit {1, 2, 250} x (workers, max-workers) in {(1,3),(0,4),(3,3),(10,3),(1,6)} as real attacks against a blocking local server; distinct+non-trivial = combinations in which the pool has to grow or the stream limit is below max-workers"
-	R.Assume("loopback HTTP/TLS (httptest); the only wall-clock element is a 30 s deadline after which a combination that has not filled max-workers is reported; 50 ms of continued pacing after the pool is full to observe an overshoot")
+	R.Assume("loopback HTTP/TLS (httptest); the only wall-clock element is a one-minute deadline after which a combination that has not filled max-workers is reported; 50 ms of continued pacing after the pool is full to observe an overshoot")
 	var cs []combo
 	wm := [][2]uint64{{1, 3}, {0, 4}, {3, 3}, {10, 3}, {1, 6}}
 	for _, x := range wm {
@@ -129,7 +129,7 @@ func TestC03(t *testing.T) {
 	}
 	outs := make([]out, len(cs))
 	ev.Parallel(len(cs), 8, func(i int) {
-		m, r, p := run(cs[i], 30*time.Second)
+		m, r, p := run(cs[i], time.Minute)
 		outs[i] = out{m, r, p}
 	})
 	for i, c := range cs {
